@@ -175,6 +175,9 @@ func inRange(code int32, lo, hi log.Level) bool { return code >= lo.Code() && co
 func cmdLevels(f hx.Flags, r *hx.Result) {
 	defer rootAcrossGenerations(r) // the root logger's level range is the live configuration's too
 	defer blockOverflowDelivery(r)
+	defer discardOldestDelivery(r)
+	defer recordAnySkip(r)
+	defer rollingSeparateLongName(r)
 	rng := hx.Rand(1)
 	console := sys.InstallConsole()
 	ctx := context.Background()
@@ -549,4 +552,195 @@ func blockOverflowDelivery(r *hx.Result) {
 	if fmt.Sprint(got[102]) != "[ERROR]" || fmt.Sprint(got[103]) != "[WARN]" || len(got[-1]) > 0 {
 		r.Violate("missing:async-block-overflow", desc, "events 102 (ERROR) and 103 (WARN) arrived as %v / %v, records without id: %d", got[102], got[103], len(got[-1]))
 	}
+}
+
+// discardOldestDelivery: a full buffer under DiscardOldest.  The worker holds event 1, events 2..101 fill the 100
+// slots, events 102..106 (levels ERROR, WARN, INFO, FATAL, PANIC) arrive: each evicts the oldest queued event and is
+// queued itself.  Delivered in the end: 1 and 7..106, once each, each at its own level, to each reference whose range
+// contains that level.
+func discardOldestDelivery(r *hx.Result) {
+	all := &sys.RecAppender{}
+	gate := &sys.RecAppender{Gate: make(chan struct{}), Entered: make(chan int64, 1<<10)}
+	warnUp := &sys.RecAppender{}
+	lg := &log.AsyncLogger{
+		LoggerBase: log.LoggerBase{Level: log.LevelRange{MinLevel: log.InfoLevel, MaxLevel: log.MaxLevel}},
+		AppenderRefs: log.AppenderRefs{AppenderRefs: []*log.AppenderRef{
+			{Appender: gate, Level: log.LevelRange{MinLevel: log.InfoLevel, MaxLevel: log.MaxLevel}},
+			{Appender: all, Level: log.LevelRange{MinLevel: log.InfoLevel, MaxLevel: log.MaxLevel}},
+			{Appender: warnUp, Level: log.LevelRange{MinLevel: log.WarnLevel, MaxLevel: log.MaxLevel}}}},
+		BufferSize: 100, BufferFullPolicy: log.BufferFullPolicyDiscardOldest,
+	}
+	if err := lg.Start(); err != nil {
+		r.SetInfra("discardOldestDelivery: %v", err)
+		return
+	}
+	levels := []log.Level{log.ErrorLevel, log.WarnLevel, log.InfoLevel, log.FatalLevel, log.PanicLevel}
+	levelOf := func(id int64) log.Level {
+		if id >= 102 {
+			return levels[(id-102)%5]
+		}
+		return levels[id%3] // ERROR, WARN, INFO among the fillers
+	}
+	put := func(id int64) {
+		e := log.GetEvent()
+		e.Level, e.Time, e.Tag = levelOf(id), time.Now(), "load"
+		e.Fields = []log.Field{log.Int("id", int(id))}
+		lg.Append(e)
+	}
+	desc := map[string]any{"logger": "AsyncLogger, policy DiscardOldest, references: everything / everything / WARN and above",
+		"history": "worker holds event 1; 2..101 fill the buffer; 102..106 arrive; worker released; Stop"}
+	put(1)
+	select {
+	case <-gate.Entered:
+	case <-time.After(8 * time.Second):
+		r.SetInfra("discardOldestDelivery: the worker did not take the first event")
+		return
+	}
+	ok, p := hx.Within(10e9, func() {
+		for id := int64(2); id <= 106; id++ {
+			put(id)
+		}
+	})
+	close(gate.Gate)
+	if !ok || p != nil {
+		r.Violate("log-call-blocked:async", desc, "logging into the full buffer under DiscardOldest: returned=%v panic=%v", ok, p)
+		return
+	}
+	if ret, p := hx.Within(15*time.Second, func() { lg.Stop() }); !ret || p != nil {
+		r.Violate("log-call-blocked:async", desc, "Stop returned=%v panic=%v", ret, p)
+		return
+	}
+	r.Eval(106)
+	for name, ap := range map[string]*sys.RecAppender{"everything": all, "WARN and above": warnUp} {
+		got := map[int64][]string{}
+		for _, rc := range ap.Recs() {
+			got[rc.ID] = append(got[rc.ID], rc.Level)
+		}
+		for id := int64(1); id <= 106; id++ {
+			want := "[]"
+			if (id == 1 || id >= 7) && (name == "everything" || levelOf(id).Code() >= log.WarnLevel.Code()) {
+				want = "[" + levelOf(id).Name() + "]"
+			}
+			if fmt.Sprint(got[id]) != want {
+				r.Violate("missing:async-discard-oldest", desc, "reference %q: event %d (level %s) arrived as %v, want %s", name, id, levelOf(id).Name(), got[id], want)
+				return
+			}
+		}
+		if len(got[-1]) > 0 {
+			r.Violate("extra:async-discard-oldest", desc, "reference %q received %d records that are none of the events logged (levels %v)", name, len(got[-1]), got[-1])
+			return
+		}
+	}
+	if lg.GetDiscardCounter() != 5 {
+		r.Violate("missing:async-discard-oldest", desc, "discard counter %d, want 5", lg.GetDiscardCounter())
+	}
+}
+
+// recordAnySkip: Record emits at its level whatever its skip argument is - the skip selects the reported location,
+// not whether the event exists - in both caller-lookup modes, and with the lookup disabled.
+func recordAnySkip(r *hx.Result) {
+	ctx := context.Background()
+	for _, mode := range []map[string]string{{}, {"fastCaller": "true"}, {"enableCaller": "false"}} {
+		log.Destroy()
+		log.VerifReset()
+		sys.ResetAppenders()
+		tag := log.RegisterTag("skip_tag")
+		cfg := sys.Cfg{}
+		cfg.AddRec("sk1")
+		cfg.AddLogger("lg", "Logger", "INFO", "skip_tag", []sys.Ref{{Ref: "sk1"}}, false, nil)
+		for k, v := range mode {
+			cfg[k] = v
+		}
+		if err := log.Refresh(cfg.Map(nil)); err != nil {
+			r.SetInfra("recordAnySkip refresh: %v", err)
+			return
+		}
+		skips := []int{0, 1, 2, 3, 5, 10, 31, 32, 33, 64, 100, 200, 1000, 1 << 20}
+		var p any
+		done := make(chan struct{})
+		go func() { // a fresh goroutine: the stack is three frames deep
+			defer close(done)
+			p = hx.Catch(func() {
+				for i, sk := range skips {
+					log.Record(ctx, log.WarnLevel, tag, sk, log.Int("id", i+1))
+				}
+			})
+		}()
+		<-done
+		log.Destroy()
+		r.Eval(int64(len(skips)))
+		desc := map[string]any{"caller_properties": mode, "skips": skips}
+		if p != nil {
+			r.Violate("log-panic:record-skip", desc, "Record panicked: %v", p)
+			continue
+		}
+		got := map[int64][]string{}
+		for _, rc := range sys.Appender("sk1").Recs() {
+			got[rc.ID] = append(got[rc.ID], rc.Level)
+		}
+		for i, sk := range skips {
+			if fmt.Sprint(got[int64(i+1)]) != "[WARN]" {
+				r.Violate("missing:record-skip", desc, "Record(WARN, skip %d) from the top of a goroutine arrived as %v, want exactly once at WARN", sk, got[int64(i+1)])
+				break
+			}
+		}
+	}
+	log.VerifReset()
+}
+
+// rollingSeparateLongName: a RollingFile logger with separate=true and a file name so long that "<name>.<ts>" still fits
+// the file system's limit while "<name>.wf.<ts>" does not.  Refresh may fail; if it succeeds, events of every level are
+// in the file their level selects.
+func rollingSeparateLongName(r *hx.Result) {
+	tmp, err := os.MkdirTemp(os.Getenv("VERIF_SCRATCH"), "ln-")
+	if err != nil {
+		r.SetInfra("mkdtemp: %v", err)
+		return
+	}
+	defer os.RemoveAll(tmp)
+	log.RegisterTimeRotation("lnh", log.TimeRotation{Interval: time.Hour})
+	ctx := context.Background()
+	for _, n := range []int{200, 236, 237, 238, 239, 240, 241} {
+		log.Destroy()
+		log.VerifReset()
+		sys.ResetAppenders()
+		tag := log.RegisterTag("ln_tag")
+		dir := filepath.Join(tmp, fmt.Sprint(n))
+		_ = os.MkdirAll(dir, 0o755)
+		name := strings.Repeat("n", n-4) + ".log"
+		cfg := sys.Cfg{}
+		cfg.AddRec("unused")
+		cfg.AddLogger("lg", "RollingFile", "", "ln_tag", nil, false, map[string]string{"fileDir": dir, "fileName": name, "rotation": "lnh", "separate": "true"})
+		var rerr error
+		if p := hx.Catch(func() { rerr = log.Refresh(cfg.Map(nil)) }); p != nil {
+			r.Violate("refresh-panic", map[string]any{"file_name_length": n}, "Refresh panicked: %v", p)
+			continue
+		}
+		r.Eval(1)
+		if rerr != nil {
+			log.Destroy()
+			continue // no successful Refresh: nothing is promised
+		}
+		log.Info(ctx, tag, log.Int("id", 1))
+		log.Warn(ctx, tag, log.Int("id", 2))
+		log.Error(ctx, tag, log.Int("id", 3))
+		log.Destroy()
+		var normal, wf string
+		ents, _ := os.ReadDir(dir)
+		for _, e := range ents {
+			b, _ := os.ReadFile(filepath.Join(dir, e.Name()))
+			if strings.HasPrefix(e.Name(), name+".wf.") {
+				wf += string(b)
+			} else {
+				normal += string(b)
+			}
+		}
+		cnt := func(s string, id int) int { return strings.Count(s, fmt.Sprintf("id=%d\n", id)) }
+		if cnt(normal, 1) != 1 || cnt(wf, 2) != 1 || cnt(wf, 3) != 1 || cnt(normal, 2)+cnt(normal, 3)+cnt(wf, 1) != 0 {
+			r.Violate("missing:rolling-separate-long-name", map[string]any{"file_name_length": n, "separate": true},
+				"Refresh succeeded with a file name of %d bytes; INFO / WARN / ERROR events are in the normal file %d / %d / %d times and in the .wf file %d / %d / %d times (want 1 0 0 and 0 1 1)",
+				n, cnt(normal, 1), cnt(normal, 2), cnt(normal, 3), cnt(wf, 1), cnt(wf, 2), cnt(wf, 3))
+		}
+	}
+	log.VerifReset()
 }
